@@ -394,20 +394,7 @@ func (c *cutCase) runReadDataFiltered(want ws.OpCode) error {
 		return fmt.Errorf("%s reported success although the stream ends at offset %d", c.Entry, c.Off)
 	}
 	k, where := c.locate()
-	if err == io.EOF && where == "payload" && c.finalDataFrame(k) {
-		// The cut message is being discarded (unwanted type) and its last frame is cut:
-		// Discard() does not report it and the next header read sees a clean EOF. Left open (see DESIGN.md §4.16).
-		var first byte
-		for i := k; i >= 0; i-- {
-			if !ref.IsControl(c.Frames[i].H.Op) && c.Frames[i].H.Op != ref.OpCont {
-				first = c.Frames[i].H.Op
-				break
-			}
-		}
-		if ws.OpCode(first) != want {
-			return c.checkReplies(rec)
-		}
-	}
+	_, _ = k, where
 	if e2 := c.checkFinalErr(err, c.Entry); e2 != nil {
 		return e2
 	}
@@ -440,11 +427,10 @@ func (c *cutCase) runReaderDiscard() error {
 			continue
 		}
 		k, where := c.locate()
-		if where == "payload" && c.finalDataFrame(k) || (where == "payload" && ref.IsControl(c.Frames[k].H.Op) && !ref.FragmentedBefore(c.Frames, k)) {
-			return nil // cut inside the last frame of the message being discarded: Discard's own result is left open
-		}
 		if derr == nil || derr == io.EOF {
-			return fmt.Errorf("Discard returned %v although the stream ends at %d inside the open fragmented message %v (cut in the %s of frame %d)", derr, c.Off, e, where, k)
+			// (a cut inside the last frame of the message used to be left open: Discard is an API like any other
+			// and must not report success for a message of which the stream delivered only a part)
+			return fmt.Errorf("Discard returned %v although the stream ends at %d inside the message %v being discarded (cut in the %s of frame %d)", derr, c.Off, e, where, k)
 		}
 		return nil
 	}
